@@ -84,39 +84,36 @@ Qed.
 
 (* ------------------------------------------------------------------ *)
 (* Walk *)
-Lemma count_typed_nil_nonneg : forall t, 0 <= count_typed_nil t.
+Lemma stray_nonneg : forall t, 0 <= stray_typed_nil t.
 Proof.
-  induction t as [k f c IH] using node_ind'. cbn [count_typed_nil].
-  induction c as [|[| |m] c IHc]; [lia| | |]; apply Forall_cons_iff in IH as [Hm Hc];
-    specialize (IHc Hc); cbn [on_child] in *; lia.
+  induction t as [k f c IH] using node_ind'. rewrite stray_eq. generalize O.
+  induction c as [|[| |m] c IHc]; intros i; cbn [stray_kids]; [lia| | |];
+    apply Forall_cons_iff in IH as [Hm Hc]; specialize (IHc Hc (S i)); cbn [on_child] in *;
+    try destruct (nil_checked k i); lia.
 Qed.
 
-Fixpoint ctn_kids (l : list (child node)) : Z :=
-  match l with
-  | [] => 0
-  | CNode m :: l' => count_typed_nil m + ctn_kids l'
-  | CTypedNil :: l' => 1 + ctn_kids l'
-  | CNil :: l' => ctn_kids l'
-  end.
-Lemma ctn_eq : forall k f c, count_typed_nil (T k f c) = ctn_kids c.
-Proof. reflexivity. Qed.
-Lemma ctn_kids_nonneg : forall c, 0 <= ctn_kids c.
+Lemma stray_kids_nonneg : forall k i c, 0 <= stray_kids k i c.
 Proof.
-  induction c as [|[| |m] c IH]; cbn [ctn_kids]; try lia.
-  pose proof (count_typed_nil_nonneg m). lia.
+  intros k i c. revert i. induction c as [|[| |m] c IH]; intros i; cbn [stray_kids]; try lia.
+  - apply IH.
+  - specialize (IH (S i)). destruct (nil_checked k i); lia.
+  - pose proof (stray_nonneg m). specialize (IH (S i)). lia.
 Qed.
 
-Lemma walk_no_typed_nil : forall stop t, count_typed_nil t = 0 -> walk stop t = walk_s stop t.
+(* otto's Walk is the traversal the property asks for on every tree whose nil pointers sit
+   only in the slots Walk tests *)
+Lemma walk_agrees : forall stop t, stray_typed_nil t = 0 -> walk stop t = walk_s stop t.
 Proof.
   intros stop. induction t as [k f c IH] using node_ind'. intros H0.
   rewrite walk_eq, walk_s_eq. destruct (stop k); [reflexivity|]. f_equal. f_equal.
-  rewrite ctn_eq in H0. clear k f.
-  induction c as [|[| |m] c IHc]; cbn [walk_kids walk_s_kids ctn_kids] in *.
+  rewrite stray_eq in H0. clear f. revert H0. generalize O.
+  induction c as [|[| |m] c IHc]; intros i H0; cbn [walk_kids walk_s_kids stray_kids] in *.
   - reflexivity.
   - apply Forall_cons_iff in IH as [Hm Hc]. auto.
-  - pose proof (ctn_kids_nonneg c). lia.
+  - apply Forall_cons_iff in IH as [Hm Hc]. pose proof (stray_kids_nonneg k (S i) c).
+    destruct (nil_checked k i); [apply IHc; auto; lia | lia].
   - apply Forall_cons_iff in IH as [Hm Hc]. cbn [on_child] in Hm.
-    pose proof (ctn_kids_nonneg c). pose proof (count_typed_nil_nonneg m).
+    pose proof (stray_kids_nonneg k (S i) c). pose proof (stray_nonneg m).
     rewrite Hm by lia. rewrite IHc; auto. lia.
 Qed.
 
@@ -178,18 +175,18 @@ Proof.
   rewrite forallb_app. cbn [on_child] in Hm. rewrite Hm. auto.
 Qed.
 
-(* a typed-nil slot is handed to the visitor *)
-Lemma walk_typed_nil_seen : forall t, 0 < count_typed_nil t -> In ENilEnter (walk no_stop t).
+(* a nil pointer in a slot that Walk does not test still reaches the visitor *)
+Lemma walk_stray_seen : forall t, 0 < stray_typed_nil t -> In ENilEnter (walk no_stop t).
 Proof.
   induction t as [k f c IH] using node_ind'. intros H.
   rewrite walk_eq. cbn [no_stop]. right. apply in_or_app. left.
-  rewrite ctn_eq in H. clear k f.
-  induction c as [|[| |m] c IHc]; cbn [walk_kids ctn_kids] in *.
+  rewrite stray_eq in H. clear f. revert H. generalize O.
+  induction c as [|[| |m] c IHc]; intros i H; cbn [walk_kids stray_kids] in *.
   - lia.
   - apply Forall_cons_iff in IH as [Hm Hc]. auto.
-  - now left.
+  - apply Forall_cons_iff in IH as [Hm Hc]. destruct (nil_checked k i); [apply IHc; auto; lia | now left].
   - apply Forall_cons_iff in IH as [Hm Hc]. cbn [on_child] in Hm. apply in_or_app.
-    destruct (Z_lt_dec 0 (count_typed_nil m)); [left; auto | right; apply IHc; auto; lia].
+    destruct (Z_lt_dec 0 (stray_typed_nil m)); [left; auto | right; apply IHc; auto; lia].
 Qed.
 
 (* ------------------------------------------------------------------ *)
